@@ -18,6 +18,10 @@ let parse_op (o : string) : lop option =
   try
     match split ':' o with
     | ["k"] -> Some LCancel
+    | ["G"] -> Some LGate
+    | ["U"] -> Some LUngate
+    | [a] when a.[0] = 'q' -> Some (LQuit (num (rest_of a)))
+    | [a] when a.[0] = 'e' -> Some (LEnd (num (rest_of a)))
     | ["DS"] -> Some (LDrain PSmtp)
     | ["DP"] -> Some (LDrain PPop3)
     | ["nS"] -> Some (LProbe PSmtp)
